@@ -328,6 +328,34 @@ valves) and that of `_prev_isolated_junctions` over all junctions — `flagged` 
 theorem prev_isolated_rebuilt_over_all_elements :
     coversAllLinks prevIsoLinkSources = true ∧ coversAllJunctions prevIsoJunctionSources = true := by decide
 
+/-- the content of the network core `C` of `Model/Restart.lean`, spelled out: the private attributes of `wn`, its
+elements and its controls' conditions that carry simulation state from pass to pass (all pickled with the model) -/
+def declaredNetworkState : List String :=
+  ["sim_time", "_prev_sim_time",                               -- the clock
+   "_user_status", "_internal_status", "_setting", "_prev_setting", "_initial_status",  -- links
+   "_head", "_prev_head", "_demand", "_pressure", "_leak_demand", "_leak_status",        -- nodes / tanks
+   "_flow",
+   "_is_isolated",                                              -- the flags (fields `isoJ`, `isoL` of `Net`)
+   "_last_value", "_backtrack"]                                 -- TankLevelCondition / time conditions
+
+/-- attributes the loop reads that belong to the DEFINITION of the network or are constants / back references of
+controls and internal conditions (never written while simulating) -/
+def declaredDefinitionPrivates : List String :=
+  ["_Htol", "_Qtol", "_condition_1", "_condition_2", "_cv", "_end_node", "_start_node", "_fcv", "_prv", "_psv", "_pump", "_r",
+   "_first_day", "_func", "_func_kwargs", "_model", "_wn", "_priority", "_relation", "_repeat", "_threshold", "_source_attr",
+   "_source_obj", "_threshold_attr", "_threshold_obj", "_shifted_time", "_prev_shifted_time"]
+
+/-- **(source obligation 5)** every private attribute of the network that the loop of `run_sim`, the functions of
+`wntr/sim/hydraulics.py` it calls, the conditions' `evaluate()` methods, the status / setting setters and the control
+actions WRITE is part of the declared network state — i.e. lives in the core `C` (or the flags) that `run_split_hydraulic`
+quantifies over; a new piece of state written by that code breaks this -/
+theorem network_state_written_is_declared : ∀ f ∈ networkStateWritten, f ∈ declaredNetworkState := by decide
+
+/-- **(source obligation 6)** every private attribute that code READS is declared network state or a definition
+attribute: the continuation reads nothing that is neither stored in the network nor re-derived -/
+theorem network_state_read_is_declared :
+    ∀ f ∈ networkStateRead, f ∈ declaredNetworkState ∨ f ∈ declaredDefinitionPrivates := by decide
+
 /-- **(source obligation 4)** the only network attributes the loop stores through `self._wn` are the clock fields (part
 of the core `C`); everything else goes through element objects owned by the network -/
 theorem loop_stores_only_clock_in_wn : ∀ f ∈ wnStoredInLoop, f ∈ ["sim_time", "_prev_sim_time"] := by decide
